@@ -53,6 +53,7 @@ class C15(Engine):
     quick_budget = 45
     quick_runs = 8000
     thorough_budget = 1200
+    variants = ("small",)
     rule = ("run i = batch of 16 cases; case = (one of the 15 simulators, 64-byte code window whose first opcode unit is stratified over "
             "all 256 byte values / a seeded 16-bit value, seeded operands, a data window at an address-space edge, registers set only "
             "through set_reg/push/set_pc/reset with boundary-biased values, 0-20 prefix steps) executed as one step in variants: fresh "
@@ -69,6 +70,12 @@ class C15(Engine):
     CASES = 16
 
     def plan(self, rng, index):
+        plan = self._plan(rng, index)
+        # every third run uses the small-page build of /repo (256-byte memory pages)
+        plan["build"] = "small" if index % 3 == 2 else "san"
+        return plan
+
+    def _plan(self, rng, index):
         cases = []
         names = sorted(SIMS)
         for j in range(self.CASES):
@@ -168,6 +175,7 @@ class C15(Engine):
 
     def run(self, ex, plan):
         res = RunResult()
+        ex = self.variant(ex, plan.get("build"))
         cases = plan["cases"]
         todo = list(range(len(cases)))
         digests = []
@@ -276,7 +284,7 @@ class C15(Engine):
         cases = plan["cases"]
         if len(cases) > 1:
             for i in range(len(cases)):
-                yield {"cases": [cases[i]]}
+                yield {"cases": [cases[i]], "build": plan.get("build")}
             return
         c = cases[0]
         if c["prefix"]:
